@@ -104,6 +104,12 @@ def mk_field(base, name, of=""):
     # (0usize.checked_sub(x) as Some).0 can only be 0
     if base[0] == "variant" and base[2] == "Some" and base[1][0] == "call" and base[1][2].endswith("::checked_sub") and len(base[1][3]) == 2 and is_const(base[1][3][0], 0) and name in ("0", 0):
         return const(0)
+    # `x?` on an Option whose variant is not known: (branch(x) as Continue).0 is (x as Some).0
+    if base[0] == "variant" and base[1][0] == "trybranch" and name in ("0", 0):
+        if base[2] == "Continue":
+            return mk_field(("variant", base[1][1], "Some", 1), "0", "")
+        if base[2] == "Break":
+            return mk_agg("adt", "core::option::Option", "None", 0, ())
     if base[0] == "variant" and base[1][0] == "agg":
         agg = base[1]
         if agg[3] == base[2]:
@@ -208,6 +214,10 @@ def mk_call(site, callee, args, argtys=None):
             if a[3] == "Ok":
                 return mk_agg("adt", "core::ops::ControlFlow", "Continue", 0, (("0", a[5][0][1]),))
             return mk_agg("adt", "core::ops::ControlFlow", "Break", 1, (("0", a),))
+    if d == "core::ops::Try::branch" and args and callee and (callee.get("self_ty") or {}).get("adt") == "core::option::Option" and (callee.get("self_ty") or {}).get("peel", 0) == 0:
+        return ("trybranch", args[0])
+    if d == "core::ops::FromResidual::from_residual" and callee and (callee.get("self_ty") or {}).get("adt") == "core::option::Option" and (callee.get("self_ty") or {}).get("peel", 0) == 0:
+        return mk_agg("adt", "core::option::Option", "None", 0, ())
     if d in ("core::result::Result::<T, E>::unwrap", "core::result::Result::<T, E>::expect", "core::result::Result::<T, E>::unwrap_unchecked") and args and args[0][0] == "agg" and args[0][3] == "Ok":
         return args[0][5][0][1]
     if d in ("core::option::Option::<T>::unwrap", "core::option::Option::<T>::expect", "core::option::Option::<T>::unwrap_unchecked") and args and args[0][0] == "agg" and args[0][3] == "Some":
@@ -247,7 +257,7 @@ def children(e):
         return tuple(x for _, x in e[5])
     if k in ("param", "unk", "const", "fn"):
         return ()
-    if k in ("field", "variant", "deref", "ref", "discr", "idx", "content", "content_of_guard", "repeat", "proj", "stepped"):
+    if k in ("field", "variant", "deref", "ref", "discr", "idx", "content", "content_of_guard", "repeat", "proj", "stepped", "trybranch"):
         return (e[1],)
     if k == "cast":
         return (e[2],)
